@@ -63,7 +63,7 @@ fn gen_res(r: &mut Rng, warm: usize, block_hint: Option<usize>, faulty: bool) ->
     for _ in 0..parts { a.params.push(r.below(15) as u8); }
     for t in 0..block {
         let p = a.params[(t / plen.max(1)).min(parts - 1)];
-        if t < warm { a.q.push(0); a.r.push(0); } else { a.q.push(if r.chance(1, 8) { r.below(40) as u32 } else { r.below(3) as u32 }); a.r.push(r.below(1u64 << p) as u32); }
+        if t < warm { a.q.push(0); a.r.push(0); } else { a.q.push(if r.chance(1, 8) { r.below(40) as u32 } else { r.below(3) as u32 }); a.r.push(if r.chance(1, 6) { ((1u64 << p) - 1) as u32 } else { r.below(1u64 << p) as u32 }); }
     }
     if faulty {
         match r.below(15) {
@@ -78,7 +78,13 @@ fn gen_res(r: &mut Rng, warm: usize, block_hint: Option<usize>, faulty: bool) ->
             7 => a.po = *r.pick(&[15usize, 16, 17, 64]),         // partition order out of range
             8 => { a.block = 0; a.q.clear(); a.r.clear(); }      // block size 0
             9 => { if a.warm > 0 { a.q[0] = 1; } else { a.warm = a.block + 5; } }
-            10 => { let k = r.below(a.r.len().max(1) as u64) as usize; if k < a.r.len() { a.r[k] = 1 << 15; } }
+            10 => { // a remainder that does not fit its partition's parameter: far out, exactly 2^p (the first value that
+                    // does not fit) and 2^p + 1; also the last value that fits (2^p - 1, still valid)
+                    let k = r.below(a.r.len().max(1) as u64) as usize;
+                    if k < a.r.len() {
+                        let p = a.params.get((k / plen.max(1)).min(parts - 1)).copied().unwrap_or(0).min(31) as u32;
+                        a.r[k] = match r.below(4) { 0 => 1 << 15, 1 => 1u32 << p, 2 => (1u32 << p) + 1, _ => (1u32 << p).saturating_sub(1) };
+                    } }
             11 => { a.po += 1; }                                 // order and parameter count disagree
             12 => { if !a.q.is_empty() { let k = r.below(a.q.len() as u64) as usize; a.q[k] = *r.pick(&[65535u32, 65536, 100000]); } }
             _ => { a.block = 32768 * 2; a.q = vec![0; a.block]; a.r = vec![0; a.block]; a.params = vec![0; 1 << a.po]; a.warm = 0; }
